@@ -60,8 +60,10 @@ def run(ctx):
     cases = []
     for name, (n, symms) in sg.TABLE.items():
         ops = [sg.parse_op(s) for s in symms]
-        for style in (0, 1, 2):
-            cases.append((name, n, ops, [sg.op_text(o, style=style) for o in ops], True))
+        for style in (0, 1, 2, 3, 4):
+            texts = [sg.op_text(o, style=style) for o in ops]
+            # the operators as they are written (styles 3, 4 write the negative representative of a translation)
+            cases.append((name, n, [sg.parse_op(t) for t in texts], texts, True))
         cases.append((name + ' (as tabulated)', n, ops, list(symms), True))
         # the LATT instruction in other spellings: N has the default 1, comments, case, blanks
         spell = ['latt %d' % n, 'LATT   %d   ! lattice type' % n] + (['LATT', 'LATT ! N[1]', 'latt  '] if n == 1 else [])
@@ -119,7 +121,7 @@ def run(ctx):
     ctx.cov['evaluations'] = len(cases)
     ctx.cov['distinct_nontrivial'] = len({(c[1], tuple(c[3])) for c in cases})
     ctx.cov['rule'] = ('31 tabulated space-group settings (all seven lattice types, centric and acentric, validated closed in exact arithmetic) '
-                       'in four spellings each, plus random distinct generator sets from the 48 signed permutation matrices with translations in '
+                       'in six spellings each (translation first / last, fractions / decimals, terms in either order, negative translations), plus random distinct generator sets from the 48 signed permutation matrices with translations in '
                        'twelfths for every LATT code; distinct = distinct (LATT, SYMM texts)')
     ctx.notes.setdefault('coverage_extra', {})['latt_histogram'] = {str(k): v for k, v in sorted(hist.items())}
     ctx.assumptions += ['closure under composition is checked per sample in exact rationals, not proved (it is a property of the SYMM lines given)',
